@@ -13,9 +13,17 @@ RULE = ("exhaustive: all byte strings of length 0-2 x paddings 0..3; seeded rand
         "outcome kind) x distinct inputs of length >= 1")
 
 
-def impl_enc(b):
+def impl_enc_raw(b):
     from webauthn.helpers.bytes_to_base64url import bytes_to_base64url
     return bytes_to_base64url(b)
+
+
+def impl_enc(b):
+    """the encoding, or an 'ERR ...' text when the encoder raises (call sites that need the exception itself use impl_enc_raw)"""
+    try:
+        return impl_enc_raw(b)
+    except Exception as e:
+        return "ERR " + fw.classify_exc(e)
 
 
 def impl_dec(s):
@@ -54,7 +62,7 @@ def run(tier, seed):
 
     def one(b, pads=(0, 1, 2, 3)):
         try:
-            enc = impl_enc(b)
+            enc = impl_enc_raw(b)
         except Exception as e:
             chk.violation("encoder raised", f"enc-raise {type(e).__name__}", {"op": "enc", "input": b.hex(), "exc": repr(e)})
             return
